@@ -362,7 +362,10 @@ func (s *ProofStructure) CommitmentsFromSecrets(g *gabikeys.PublicKey, m, mRando
 
 	bases := zkproof.NewBaseMerge(g, commit)
 
-	var contributions []*big.Int
+	// The challenge has to depend on the commitments C_i. Otherwise they - and with them the squares
+	// that the statement is about - could be chosen after the challenge is known, and any
+	// inequality could be "proven".
+	contributions := append([]*big.Int{}, commit.c...)
 	contributions = s.mCorrect.CommitmentsFromSecrets(g, contributions, &bases, commit)
 	for i := range commit.d {
 		contributions = s.cRep[i].CommitmentsFromSecrets(g, contributions, &bases, commit)
@@ -436,7 +439,7 @@ func (s *ProofStructure) VerifyProofStructure(g *gabikeys.PublicKey, p *Proof) b
 func (s *ProofStructure) CommitmentsFromProof(g *gabikeys.PublicKey, p *Proof, challenge *big.Int) []*big.Int {
 	bases := zkproof.NewBaseMerge(g, (*proof)(p))
 
-	var contributions []*big.Int
+	contributions := append([]*big.Int{}, p.Cs...) // see CommitmentsFromSecrets
 	contributions = s.mCorrect.CommitmentsFromProof(g, contributions, challenge, &bases, (*proof)(p))
 	for i := range s.cRep {
 		contributions = s.cRep[i].CommitmentsFromProof(g, contributions, challenge, &bases, (*proof)(p))
